@@ -478,6 +478,40 @@ def _cdf_checks(ctx, dist, ref, cls, args, info):
             if abs(dcdf - p) > 1e-5 * peak + 1e-6 * abs(p):
                 ctx.viol(f"cdf-derivative-differs-from-density:{cls}", {**info, "x": x, "dcdf": dcdf, "pdf": p})
                 return False
+    # ---- outside and at the ends of the support: cdf is 0 below / 1 above (consistent with a density that vanishes
+    # there), the inverse at 0 and 1 brackets every other inverse value, probabilities outside [0, 1] have no inverse
+    slo, shi = float(ref.ppf(0.0)), float(ref.ppf(1.0))
+    for x, want in [(slo - d, 0.0) for d in (1e-9, 1.0, 1e9, math.inf) if math.isfinite(slo)] + \
+                   [(shi + d, 1.0) for d in (1e-9, 1.0, 1e9, math.inf) if math.isfinite(shi)] + [(-math.inf, 0.0), (math.inf, 1.0)]:
+        ctx.count("cdf_points_outside_support")
+        try:
+            c = dist.cumulative_probability(x)
+        except Exception as e:
+            ctx.viol(f"cdf-raises:{cls}:{type(e).__name__}", {**info, "x": x, "exc": repr(e)})
+            return False
+        if c != want:
+            ctx.viol(f"cdf-outside-support:{cls}", {**info, "x": x, "cdf": c, "want": want})
+            return False
+    try:
+        x0, x1 = dist.inverse_cumulative_probability(0.0), dist.inverse_cumulative_probability(1.0)
+        xa, xb = dist.inverse_cumulative_probability(1e-9), dist.inverse_cumulative_probability(1 - 1e-9)
+    except Exception as e:
+        ctx.viol(f"icdf-raises:{cls}:{type(e).__name__}", {**info, "y": "0.0 / 1.0 / 1e-9", "exc": repr(e)})
+        return False
+    ctx.count("icdf_end_points", 2)
+    slack = 1e-6 * float(ref.std())        # erf_inv is accurate to ~4.5e-8 relative: the inner values may overshoot an end point by that much
+    if not (x0 <= xa + slack and xa <= xb and xb <= x1 + slack) or abs(dist.cumulative_probability(x0)) > 1e-9 or abs(dist.cumulative_probability(x1) - 1.0) > 1e-9 \
+            or (math.isfinite(slo) and x0 != slo) or (math.isfinite(shi) and x1 != shi):
+        ctx.viol(f"icdf-end-points:{cls}", {**info, "icdf(0)": x0, "icdf(1e-9)": xa, "icdf(1-1e-9)": xb, "icdf(1)": x1, "support": [slo, shi]})
+        return False
+    for y in (-1e-9, -0.5, 1.0000001, 2.0, math.nan):
+        try:
+            r = dist.inverse_cumulative_probability(y)
+        except Exception:
+            continue
+        if not (r != r):        # a NaN answer is as good as a refusal
+            ctx.viol(f"icdf-of-a-non-probability-answered:{cls}", {**info, "y": y, "answer": r})
+            return False
     for y in [1e-6, 1e-4, 0.01, 0.0625 / 2, 0.125, 0.3, 0.5, 0.7, 0.875, 1 - 0.0625 / 2, 0.99, 1 - 1e-4, 1 - 1e-6] + list(np.linspace(0.001, 0.999, 400)):
         y = float(y)
         ctx.count("icdf_roundtrips")
